@@ -11,7 +11,15 @@ NOTE = ("Trusted: rustc/Kani MIR->goto translation and Kani's alloc models, CBMC
 
 # id -> (claimed?, level text, design ref)
 CLAIMS = {
+ "C01": "Every public parse entry and every accessor/iterator of its result is symbolically executed on all byte strings up to the stated lengths (64 B fixed-layout, SDES 16 B / items 300 B, FCI 16-40 B; thorough 256 B / 24 B / 1024 B); absence of any reachable panic and explicit iterator step bounds are decided by the solver; NACK and compound iteration as one step from every reachable state (induction on the asserted rank). Bounded, not a proof.",
+ "C02": "Builder -> bytes -> parser with every SR/RR/report-block field symbolic over its full range and padding any u8; block counts 0,1,2 (thorough 3,31,32); one symbolic block index compared. All values within those shapes are covered by the SAT queries.",
+ "C04": "BYE (0..2 sources, reason length symbolic 0..24 with symbolic content, limits 254/255, padding <= 12; thorough: 31/32 sources, 128-byte reasons, limits 252..256, any legal padding) and APP (name 0..5 bytes incl. non-ASCII, payload 0..32) build->parse round trips into 0xA5-prefilled buffers; sources, reason bytes, name fill, payload and padding compared at symbolic indices.",
+ "C05": "Feedback build->parse->parse_fci round trips: PLI (any padding), SLI 1/3 entries, RPSI 0..8 bytes x any overrun x any payload type compared bit by bit, NACK 1 symbolic sequence through the real BTreeSet builder plus the encoder unit (hook) over <= 4 ascending values composed with the crate's decoder, FIR 1 symbolic entry (HashMap, RandomState stubbed). Thorough widens each.",
+ "C06": "For every builder type (SR, RR, BYE, APP, Unknown, SDES packet/chunk/item, both feedback builders x PLI/SLI/RPSI/NACK/FIR borrowed and owned, PacketBuilder wrapper, compounds incl. nested and third-party members) with text/payload lengths symbolic over their full ranges and the buffer length symbolic 0..=n+slack: announced size == written size, OutputTooSmall(n) below, same error when rejected, n % 4 == 0.",
  "C08": "Every input string up to the stated length (64 B quick / 256 B thorough; SDES 16/24 B) is covered by one SAT query per parser: acceptance implies exact framing and the header accessors return the header bytes. Bounded, not a proof.",
+ "C09": "(a) every accepted input up to 64-80 B (256 B thorough): accessors equal reference big-endian reads at the RFC offsets and returned slices are the input's own memory at the RFC offset (pointer comparison); (b) packets from the reference encoder over symbolic fields are accepted with the same field values.",
+ "C16": "calculate_size of every builder with lengths symbolic across every limit (reason/value/prefix 0..300, APP/Unknown payload 0..300000, counts 31/32, names 4/5, payload type 127/128, overrun 8/9): Err iff a rule of the statement is violated and the error names a violated rule with the offending value. The >65536-word rule is a listed known finding (twin harnesses).",
+ "C18": "Every rejection by every packet parser, the generic parser, compound parsing, report blocks, FCI parsers and the SDES units on all inputs up to 64 B (256 B thorough; SDES 16/24 B): error fields are those of the input (version, types, expected vs actual ordering, exact minimum / header length).",
 }
 PENDING = "check not built yet in this revision (work in progress; technique applies)"
 
